@@ -292,7 +292,13 @@ def A64_sys(obj, op1, CRn, CRm, op2, Rt):
     obj.sys_crn = CRn
     obj.sys_crm = CRm
     obj.t = env.Xregs[Rt]
-    obj.operands = [obj.sys_op1, obj.sys_crn, obj.sys_crm, obj.sys_op2, obj.t]
+    obj.operands = [
+        env.cst(op1, 3),
+        env.cst(CRn, 4),
+        env.cst(CRm, 4),
+        env.cst(op2, 3),
+        obj.t,
+    ]
     obj.type = type_cpu_state
 
 
@@ -429,7 +435,9 @@ def A64_CSx(obj, sf, Rm, cond, Rn, Rd):
     obj.n = sp2z(regs[Rn])
     obj.m = sp2z(regs[Rm])
     obj.cond = cond
-    obj.operands = [obj.d, obj.n, obj.m, obj.cond]
+    # like CCMN/CCMP, the last operand is the condition's expression on NZCV:
+    obj.misc["cond"] = env.CONDITION[cond][0]
+    obj.operands = [obj.d, obj.n, obj.m, env.CONDITION[cond][1]]
     obj.type = type_data_processing
 
 
@@ -938,7 +946,7 @@ def A64_load_store(obj, size, opc, imm9, Rn, Rt):
         obj.signed = False
     else:
         if size == 0b11:  # special case of PRFUM
-            obj.prfop = Rt
+            obj.prfop = env.cst(Rt, 5)
             obj.operands = [obj.prfop, obj.n, obj.offset]
             obj.type = type_cpu_state
             return
@@ -1019,7 +1027,7 @@ def A64_load_store(obj, size, opc, imm12, Rn, Rt):
         obj.signed = False
     else:
         if size == 0b11:  # special case of PRFM
-            obj.prfop = Rt
+            obj.prfop = env.cst(Rt, 5)
             obj.operands = [obj.prfop, obj.n, obj.offset]
             obj.type = type_cpu_state
             return
@@ -1036,7 +1044,7 @@ def A64_load_store(obj, size, opc, imm12, Rn, Rt):
 def A64_load_store(obj, opc, imm19, Rt):
     obj.offset = env.cst(imm19 << 2, 21).signextend(64)
     if opc == 0b11:  # PRFM:
-        obj.prfop = Rt
+        obj.prfop = env.cst(Rt, 5)
         obj.operands = [obj.prfop, obj.offset]
         obj.type = type_cpu_state
         return
@@ -1107,7 +1115,7 @@ def A64_load_store(obj, size, opc, Rm, option, S, Rn, Rt):
         obj.signed = False
     else:
         if size == 0b11:  # special case of PRFM
-            obj.prfop = Rt
+            obj.prfop = env.cst(Rt, 5)
             obj.operands = [obj.prfop, obj.n, obj.m]
             obj.type = type_cpu_state
             return
